@@ -698,3 +698,124 @@ Proof.
     + apply Nat.leb_gt. apply Nat2Z.inj_lt. rewrite Z2Nat.id by (apply Z.div_pos; lia).
       apply Z.div_lt_upper_bound; lia.
 Qed.
+
+(** ---- which keys a run writes (C18, C03) ---- *)
+Section WriteKeys.
+  Variable P : prm.
+  Variable Q : str -> Prop.
+
+  Definition wkeys (l : list ev) : Prop := Forall (fun kd => Q (fst kd)) (writes_of l).
+  Lemma wkeys_app l1 l2 : wkeys l1 -> wkeys l2 -> wkeys (l1 ++ l2).
+  Proof. unfold wkeys. rewrite writes_app. intros. apply Forall_app; split; auto. Qed.
+  Lemma wkeys_nil : wkeys []. Proof. constructor. Qed.
+  Lemma wkeys_cons_tr e l : write_of e = [] -> wkeys l -> wkeys (e :: l).
+  Proof. unfold wkeys. rewrite writes_cons. intros ->. auto. Qed.
+  Lemma wkeys_cons_write k d l : Q k -> wkeys l -> wkeys (EWrite k d :: l).
+  Proof. unfold wkeys. rewrite writes_cons. cbn. constructor; auto. Qed.
+  Lemma wkeys_if_write (b : bool) k d : Q k -> wkeys (if b then [EWrite k d] else []).
+  Proof. destruct b; intros; [apply wkeys_cons_write; auto|]; apply wkeys_nil. Qed.
+  Lemma wkeys_discard s : wkeys (snd (discard s)).
+  Proof. unfold discard. destruct (active s); cbn; [apply wkeys_cons_tr; [reflexivity|]|]; apply wkeys_nil. Qed.
+
+  (** the sites of a program write only keys satisfying Q *)
+  Fixpoint sites_ok (c : code) : Prop :=
+    match c with
+    | Ret _ | Raise _ | Interrupt => True
+    | Inp cf body _ _ k => sites_ok body /\ sites_ok k
+    | Out cf body _ _ k => (forall n, Q (okey_output (o_alias cf) n) /\ Q (okey_result (o_alias cf) n)) /\ sites_ok body /\ sites_ok k
+    | Try c1 h => sites_ok c1 /\ sites_ok h
+    | Discard k | Force k | Enable _ k | PlayData _ k => sites_ok k
+    | RecordData key _ k => Q key /\ sites_ok k
+    end.
+
+  Hypothesis Q_input : forall cf a kw keys, input_keys cf a kw = Some keys -> Q (hd [] keys).
+
+  Definition wres (r : res) : Prop := let '(_, _, l) := r in wkeys l.
+
+  Ltac wk :=
+    cbn [app];
+    repeat first
+      [ apply wkeys_nil
+      | assumption
+      | apply wkeys_cons_tr; [reflexivity|]
+      | apply wkeys_cons_write; [solve [eauto]|]
+      | apply wkeys_app
+      | apply wkeys_if_write; solve [eauto]
+      ].
+
+  Lemma rec_in_call_wkeys cf a kw body s :
+    (forall s0, wres (body s0)) -> wres (rec_in_call cf a kw body s).
+  Proof.
+    intros H. unfold rec_in_call, wres in *.
+    destruct (should_intercept_rec s).
+    - destruct (input_keys cf a kw) as [keys|] eqn:Ek.
+      + pose proof (Q_input _ _ _ _ Ek) as Qk.
+        pose proof (H (set_icpt true s)) as Hb. destruct (body (set_icpt true s)) as [[o s1] l1].
+        destruct o as [v|e|].
+        * destruct (active (set_icpt false s1)); [|wk].
+          pose proof (wkeys_discard (set_icpt false s1)) as D1.
+          destruct (i_prep_discards cf).
+          -- destruct (discard (set_icpt false s1)) as [s3 lh]. cbn [snd] in D1.
+             destruct (prep_input _ _ _ _).
+             ++ wk.
+             ++ pose proof (wkeys_discard s3) as D3. destruct (discard s3) as [s4 la]. cbn [snd] in D3. wk.
+          -- destruct (prep_input _ _ _ _).
+             ++ wk.
+             ++ destruct (discard (set_icpt false s1)) as [s4 la]. cbn [snd] in D1. wk.
+        * wk.
+        * wk.
+      + pose proof (wkeys_discard s) as D0. destruct (discard s) as [s0 la]. cbn [snd] in D0.
+        pose proof (H (set_icpt true s0)) as Hb. destruct (body (set_icpt true s0)) as [[o s1] l1]. wk.
+    - pose proof (H s) as Hb. destruct (body s) as [[o s1] l1]. wk.
+  Qed.
+
+  Lemma rec_out_call_wkeys cf a kw body s :
+    (forall n, Q (okey_output (o_alias cf) n) /\ Q (okey_result (o_alias cf) n)) ->
+    (forall s0, wres (body s0)) -> wres (rec_out_call cf a kw body s).
+  Proof.
+    intros HQ H. unfold rec_out_call, wres in *.
+    destruct (should_intercept_rec s).
+    - destruct (bump (o_alias cf) (counter s)) as [n cnt]. destruct (HQ n) as [Qo Qr].
+      destruct (out_datum cf a kw) as [d|].
+      + pose proof (H (set_icpt true (set_counter cnt s))) as Hb.
+        destruct (body (set_icpt true (set_counter cnt s))) as [[o s1] l1].
+        destruct o as [v|e|]; wk.
+      + pose proof (wkeys_discard (set_counter cnt s)) as D0. destruct (discard (set_counter cnt s)) as [s1 la].
+        cbn [snd] in D0. pose proof (H s1) as Hb. destruct (body s1) as [[o s2] l1]. wk.
+    - pose proof (H s) as Hb. destruct (body s) as [[o s1] l1]. wk.
+  Qed.
+
+  Theorem rec_exec_wkeys : forall c env s, sites_ok c -> wres (rec_exec P c env s).
+  Proof.
+    induction c as [e|ty| |cf body IHb args kwargs k IHk|cf body IHb args kwargs k IHk|c1 IH1 h IHh
+                    |k IHk|k IHk|b k IHk|key e k IHk|key k IHk]; intros env s Ok; cbn [rec_exec sites_ok] in *.
+    - apply wkeys_nil.
+    - apply wkeys_nil.
+    - apply wkeys_nil.
+    - destruct Ok as [Ob Okk].
+      pose proof (rec_in_call_wkeys cf (map (eval env) args) (eval_kw env kwargs)
+                    (rec_exec P body (body_env (map (eval env) args) (eval_kw env kwargs))) s
+                    (fun s0 => IHb _ s0 Ob)) as H.
+      unfold bind_val, wres in *. destruct (rec_in_call _ _ _ _ s) as [[o s1] l1].
+      destruct o as [v|e|]; auto. pose proof (IHk (env ++ [v]) s1 Okk) as H2.
+      destruct (rec_exec P k (env ++ [v]) s1) as [[o2 s2] l2]. apply wkeys_app; auto.
+    - destruct Ok as (HQ & Ob & Okk).
+      pose proof (rec_out_call_wkeys cf (map (eval env) args) (eval_kw env kwargs)
+                    (rec_exec P body (body_env (map (eval env) args) (eval_kw env kwargs))) s HQ
+                    (fun s0 => IHb _ s0 Ob)) as H.
+      unfold bind_val, wres in *. destruct (rec_out_call _ _ _ _ s) as [[o s1] l1].
+      destruct o as [v|e|]; auto. pose proof (IHk (env ++ [v]) s1 Okk) as H2.
+      destruct (rec_exec P k (env ++ [v]) s1) as [[o2 s2] l2]. apply wkeys_app; auto.
+    - destruct Ok as [O1 Oh]. pose proof (IH1 env s O1) as H. unfold bind_exn, wres in *.
+      destruct (rec_exec P c1 env s) as [[o s1] l1]. destruct o as [v|e|]; auto.
+      pose proof (IHh env s1 Oh) as H2. destruct (rec_exec P h env s1) as [[o2 s2] l2]. apply wkeys_app; auto.
+    - pose proof (wkeys_discard s) as D. destruct (discard s) as [s1 la]. cbn [snd] in D.
+      pose proof (IHk env s1 Ok) as H2. unfold prepend, wres in *. destruct (rec_exec P k env s1) as [[o s2] l].
+      apply wkeys_app; auto.
+    - apply IHk; auto.
+    - apply IHk; auto.
+    - destruct Ok as [Qk Okk]. pose proof (IHk env s Okk) as H2. unfold prepend, wres in *.
+      destruct (rec_exec P k env s) as [[o s2] l]. apply wkeys_app; auto. apply wkeys_if_write; auto.
+    - apply IHk; auto.
+  Qed.
+End WriteKeys.
